@@ -240,6 +240,7 @@ def run(check, ctx):
     check.floor("SEG", 5)
     from . import c09_extra
     c09_extra.run(check, ctx)
+    c09_extra.k12_tree_rows(check, repo)
     # C side: every chunking (empty pieces, in-place output) of the native mode loops gives the one-shot result
     from . import c_modes
     c_modes.mode_tables(check, ctx, ("ctr", "cfb", "ofb", "cbc", "ecb"), rule="SEG-c")
